@@ -2012,6 +2012,19 @@ impl<'a> Searcher<'a> {
                         Op::Rx | Op::NotRx => format!("rx:{}", val),
                         _ => format!("glob:{}", val),
                     };
+                    #[cfg(feature = "verif")]
+                    if crate::verif::enabled() {
+                        let needs_rx = !matches!(op, Op::Eq | Op::Ne | Op::Eeq | Op::Ene) || is_glob(&val);
+                        if needs_rx && !matches!(op, Op::Eeq | Op::Ene) {
+                            crate::verif::emit("rx", &[
+                                ("op", format!("{:?}", op)),
+                                ("cls", cache_key.split(':').next().unwrap_or("").to_string()),
+                                ("pattern", val.clone()),
+                                ("hit", self.regex_cache.contains_key(&cache_key).to_string()),
+                                ("source", self.regex_cache.get(&cache_key).map(|r| r.as_str().to_string()).unwrap_or_default()),
+                            ]);
+                        }
+                    }
                     match op {
                         Op::Eq => match is_glob(&val) {
                             true => {
